@@ -61,6 +61,9 @@ func report(prop string, cfg *PropConfig, w *World, results []*FnResult, missing
 		if r.SpecErr != "" {
 			specErrs = append(specErrs, r.Fn+": "+r.SpecErr)
 		}
+		for _, d := range r.Dropped {
+			fmt.Printf("UNDECIDED: contract clause not interpretable on this tree (dropped; the rest of the contract is checked): %s: %s\n", r.Fn, d)
+		}
 		fnCount[r.Kind]++
 		all = append(all, r.Obls...)
 	}
@@ -156,12 +159,25 @@ func report(prop string, cfg *PropConfig, w *World, results []*FnResult, missing
 				lines = append(lines, o.Name)
 			} else if strings.HasPrefix(o.Fn, "sweep:") {
 				noise = append(noise, o.Name)
+			} else if o.Result == "undecided" && isSafetyKind(o.Kind) {
+				// an undecided zero-annotation safety obligation of a function under contract (it lacks a precondition):
+				// non-binding; recorded so that the quick tier does not spend its time on it again
+				noise = append(noise, o.Name)
 			}
 		}
 		os.MkdirAll(filepath.Join(verifDir, "obligations"), 0o755)
 		os.WriteFile(filepath.Join(verifDir, "obligations", prop+".unproved"), []byte(strings.Join(noise, "\n")+"\n"), 0o644)
 		os.MkdirAll(filepath.Join(verifDir, "obligations"), 0o755)
 		os.WriteFile(filepath.Join(verifDir, "obligations", prop+".expected"), []byte(strings.Join(lines, "\n")+"\n"), 0o644)
+		locals := map[string]map[string]string{}
+		for fn := range w.Contracts {
+			if len(fn.Blocks) > 0 {
+				locals[funcDisplayName(fn)] = localsOf(fn)
+			}
+		}
+		if data, err := json.MarshalIndent(locals, "", " "); err == nil {
+			os.WriteFile(filepath.Join(verifDir, "obligations", prop+".locals"), data, 0o644)
+		}
 		fmt.Printf("baseline written: %d obligations\n", len(lines))
 	}
 
@@ -390,4 +406,12 @@ func cmdReplay(args []string) int {
 	}
 	fmt.Println("no executable replay recorded (no-failing-input-found)")
 	return 1
+}
+
+func isSafetyKind(k string) bool {
+	switch k {
+	case "post", "inv.init", "inv.preserved", "dec", "lemma", "frame", "frame.init", "frame.preserved", "pre-of", "reach", "ground", "assert", "closure":
+		return false
+	}
+	return true
 }
